@@ -3,6 +3,7 @@ from .common import *
 from .codewrite import *
 from . import patches
 
+PER_TARGET = True      # every rule below looks at one target configuration at a time (check.py may fork one worker per target)
 DECIDED = ("for every public install root and every path variant on each AArch64 target: the trampoline bytes decode (independent A64 "
            "table) to MOVZ/MOVK x4 + BR whose built value is, bit for bit, the replacement address (R15.1/R15.2), or to MOVZ w/x0,#v ; RET "
            "for the boolean stub (R15.6); the entry bytes decode to B (imm26 = displacement/4 under a dominating range guard whose failing "
